@@ -80,3 +80,18 @@ class Recorder(object):
   def __exit__(self, *a):
     self.event.removeHandler(self)
     return False
+
+
+class NullLog(object):
+  """carbon.log stand-in: every logger is a no-op (the real ones read the clock and format)."""
+
+  def __getattr__(self, name):
+    return lambda *a, **k: None
+
+
+def quiet(module):
+  """Replace the `log` name inside a carbon module by a NullLog (message text is not part of any
+  property; the formatting expression at the call site is still evaluated by the real code)."""
+  if hasattr(module, 'log'):
+    module.log = NullLog()
+  return module
